@@ -783,6 +783,13 @@ func (e *eng) Op(f []string, line string, out *hx.Out) {
 		return v
 	}
 	switch f[0] {
+	case "probe":
+		// probe unset|refresh: see probe.go (implementation-only oracles; the model answers "ok")
+		s := ""
+		for _, b := range runProbe(f[1], false) {
+			s += " !BAD:C15:" + b
+		}
+		out.P("P:C15 probe ok%s", s)
 	case "backoff":
 		// backoff <min ns> <max ns> <attempt>: the retry backoff computation itself, on any bounds (the runs
 		// only reach a handful of attempts with millisecond bounds)
